@@ -136,6 +136,9 @@ struct Run {
   std::map<std::string, std::vector<std::pair<std::string, uint64_t>>> earlier;   // path -> (content, mtime) before each edit
   std::map<std::string, int> lastTouch;   // path -> last build in which the stored result behind it (producer's, or the input node's) may have changed
   std::map<std::string, FileState> nodeSeen;   // source / discovered input -> state the last build that reached it found
+  // both maps are keyed by the file behind a spelling ("x.h", "/sim/w/x.h" and a Makefile-style path joined to a working
+  // directory may be different nodes to the engine; treating them as one only widens "may re-run")
+  std::string touchKey(const std::string& n) const { return isVirtualNode(n) ? n : abs(n); }
   // process death during a build (C04 at build-system level)
   std::unique_ptr<simfs::FS> survivor;
   bool suppress = false;       // the observations of a build whose process "died" half way are not judged
@@ -685,7 +688,7 @@ void Run::opBuild(const Json& op) {
       if (noClaim.count(p->name) || softAfterFailure.count(p->name)) noClaim.insert(c->name);   // nothing firm can be said downstream of an unjudged command
       // The engine compares epochs, not values: a producer whose stored result changed in a build that did not reach this
       // command (and changed back since, which only content-based comparison can show) still re-runs it.  Either is fine.
-      if (recs.count(c->name) && lastTouch.count(i) && lastTouch[i] > recs[c->name].sawBuild) soft.insert(c->name);
+      if (recs.count(c->name) && lastTouch.count(touchKey(i)) && lastTouch[touchKey(i)] > recs[c->name].sawBuild) soft.insert(c->name);
       // ... and a producer that may legitimately re-run in this build rewrites the input, so its consumers may re-run as well
       if (soft.count(p->name) && (!isVirtualNode(i) || isTimestampNode(i))) soft.insert(c->name);
       // a command timestamp changes whenever its producer runs - now, or in an earlier build that did not reach this command
@@ -717,9 +720,9 @@ void Run::opBuild(const Json& op) {
     // the same for source and discovered inputs whose node value changed in a build that did not reach this command
     if (rit != recs.end()) {
       for (auto& i : c->inputs)
-        if (!desc.producer(i) && lastTouch.count(i) && lastTouch[i] > rit->second.sawBuild) soft.insert(c->name);
+        if (!desc.producer(i) && lastTouch.count(touchKey(i)) && lastTouch[touchKey(i)] > rit->second.sawBuild) soft.insert(c->name);
       for (auto& d : rit->second.discovered)
-        if (lastTouch.count(d) && lastTouch[d] > rit->second.sawBuild) soft.insert(c->name);
+        if (lastTouch.count(touchKey(d)) && lastTouch[touchKey(d)] > rit->second.sawBuild) soft.insert(c->name);
     }
     bool run = false;
     if (rit == recs.end() || !rit->second.ok) run = true;
@@ -782,7 +785,9 @@ void Run::opBuild(const Json& op) {
     if (run && !predictFail[c->name])
       for (auto& o : c->outputs)   // a directory where the tool must write a file: it cannot
         if (!isVirtualNode(o) && !isDirNode(o) && !isMkdirNode(o) && stateOf(o).exists && stateOf(o).type == (int)simfs::Inode::Dir) predictFail[c->name] = true;
-    if (run && c->strictExtra && !predictFail[c->name]) {
+    // (not downstream of an unjudged command - e.g. an allow-modified-outputs producer that is brought up to date without
+    // running although a clean build of it would fail: what this command then reads is not what a clean build gives it)
+    if (run && c->strictExtra && !predictFail[c->name] && !noClaim.count(c->name)) {
       // a tool that stops when an undeclared file it needs is absent (C10: "missing undeclared input")
       ToolResult tr;
       if (!expectedCommand(*c, &tr)) predictFail[c->name] = true;
@@ -1175,7 +1180,7 @@ void Run::opBuild(const Json& op) {
       for (auto& o : c->outputs)
         if (!isVirtualNode(o) && !isDirNode(o) && stateOf(o) != recs[c->name].outs[o]) touched = true;   // e.g. updated without running
     if (touched)
-      for (auto& o : c->outputs) lastTouch[o] = buildNo;
+      for (auto& o : c->outputs) lastTouch[touchKey(o)] = buildNo;
   }
   if (ok)
     for (const Cmd* c : order)
@@ -1246,9 +1251,9 @@ void Run::opBuild(const Json& op) {
       for (auto& d : recs[c->name].discovered) nodes.push_back(d);
     for (auto& n : nodes) {
       FileState st = stateOf(n);
-      if (!nodeSeen.count(n) || nodeSeen[n] != st) {
-        nodeSeen[n] = st;
-        lastTouch[n] = buildNo;
+      if (!nodeSeen.count(touchKey(n)) || nodeSeen[touchKey(n)] != st) {
+        nodeSeen[touchKey(n)] = st;
+        lastTouch[touchKey(n)] = buildNo;
       }
     }
   }
